@@ -211,7 +211,7 @@ def _origin(ana, fi, e, depth=0):
     return "unknown"
 
 
-@rule("C13", "R3", "OWN", "no in-place edit through a reference obtained from a label / member getter, or already handed to a state", floor=2)
+@rule("C13", "R3", "OWN", "no in-place edit through a reference obtained from a label / member getter, or already handed to a state", floor=2, evidence=True)
 def r3(ctx):
     ana = ctx.ana
     n_sites = 0
@@ -310,7 +310,7 @@ def r4(ctx):
                 ctx.fail(fi, f"`{unparse(n, 60)}` changes the number of clusters of a state", line=n.lineno, role=f"K:resize@{short(fi.qualname)}")
 
 
-@rule("C13", "R5", "OWN", "a deep copy shares nothing mutable with its source", floor=2)
+@rule("C13", "R5", "OWN", "a deep copy shares nothing mutable with its source", floor=2, evidence=True)
 def r5(ctx):
     ana = ctx.ana
     mut = mutability_of_fields(ana)
@@ -367,7 +367,7 @@ def _class_of_path(ana, fi, path):
     return cur[1] if cur[0] == "cls" else None
 
 
-@rule("C13", "R6", "OWN", "no phase writes the labelling, membership or fitted statistics of the state it was given", floor=4)
+@rule("C13", "R6", "OWN", "no phase writes the labelling, membership or fitted statistics of the state it was given", floor=4, evidence=True)
 def r6(ctx):
     ana = ctx.ana
     for q in PHASES:
